@@ -23,7 +23,10 @@ thread_local! {
     // the only reason I do this is because `Ty::max` needs to convert a `Ty::Variant` back into
     // its `Ty::Enum`, but this is impossible because they'd both contain references to each other,
     // and it'd be a chicken and egg situation.
-    pub static ENUM_MAP: RefCell<FxHashMap<u32, Intern<Ty>>> = RefCell::new(FxHashMap::default());
+    //
+    // An enum that is declared inside a generic function exists once per instantiation, and all
+    // of those share one uid, so every uid maps to a list (the most recent one comes last).
+    pub static ENUM_MAP: RefCell<FxHashMap<u32, Vec<Intern<Ty>>>> = RefCell::new(FxHashMap::default());
 
     pub static TYPE_NAMES: RefCell<FxHashMap<Intern<Ty>, TyName>> = RefCell::new(FxHashMap::default());
 
@@ -33,7 +36,36 @@ thread_local! {
 #[track_caller]
 pub fn get_enum_from_uid(enum_uid: u32) -> Intern<Ty> {
     ENUM_MAP
-        .with_borrow(|map| map.get(&enum_uid).copied())
+        .with_borrow(|map| map.get(&enum_uid).and_then(|enums| enums.last().copied()))
+        .unwrap()
+}
+
+/// Returns the enum with the given uid that contains all of the given variants.
+///
+/// The uid alone isn't enough: `Opt(i64)` and `Opt(bool)` are two enums with one uid, and the
+/// enum that `Opt(i64).Some` and `Opt(i64).None` belong to is `Opt(i64)`, whichever of the two
+/// was created last.
+#[track_caller]
+pub fn get_enum_from_variants(enum_uid: u32, variants: &[&Ty]) -> Intern<Ty> {
+    ENUM_MAP
+        .with_borrow(|map| {
+            let enums = map.get(&enum_uid)?;
+
+            enums
+                .iter()
+                .rev()
+                .find(|enum_ty| match enum_ty.as_ref() {
+                    Ty::Enum {
+                        variants: enum_variants,
+                        ..
+                    } => variants
+                        .iter()
+                        .all(|v| enum_variants.iter().any(|ev| ev.as_ref() == *v)),
+                    _ => false,
+                })
+                .or(enums.last())
+                .copied()
+        })
         .unwrap()
 }
 
@@ -45,7 +77,11 @@ pub fn set_enum_uid(enum_uid: u32, ty: Intern<Ty>) {
 
     assert_eq!(enum_uid, *uid);
 
-    ENUM_MAP.with_borrow_mut(|map| map.insert(enum_uid, ty));
+    ENUM_MAP.with_borrow_mut(|map| {
+        let enums = map.entry(enum_uid).or_default();
+        enums.retain(|other| *other != ty);
+        enums.push(ty);
+    });
 }
 
 #[derive(Debug, Clone, Copy, PartialEq)]
@@ -975,7 +1011,7 @@ impl Ty {
                 },
             ) => {
                 if first_enum_uid == second_enum_uid {
-                    Some((*get_enum_from_uid(*first_enum_uid)).clone())
+                    Some((*get_enum_from_variants(*first_enum_uid, &[self, other])).clone())
                 } else if self.is_zero_sized() && other.is_zero_sized() {
                     // todo: should this be explicit?
                     Some(Ty::Type)
